@@ -596,9 +596,15 @@ func (w *writer) privateText() []byte {
 		w.rdEntry(&b, fmt.Sprintf("dup %d", i), EncryptCharstring(EncodeToks(s), w.lead()), w.np())
 	}
 	fmt.Fprintf(&b, "%s\n", w.nd())
-	fmt.Fprintf(&b, "2 index /CharStrings %d dict dup begin\n", len(css)+w.pick(3))
-	for _, c := range css {
+	fmt.Fprintf(&b, "2 index /CharStrings %d dict dup begin\n", len(css)+len(f.JunkChars)+w.pick(3))
+	for i, c := range css {
+		if i < len(f.JunkChars) {
+			fmt.Fprintf(&b, "/%s %s def\n", PSName(f.JunkChars[i]), []string{"17", "/x", "[1 2]", "true", "1.5"}[i%5])
+		}
 		w.rdEntry(&b, "/"+PSName(c.name), c.data, w.nd())
+	}
+	for i := len(css); i < len(f.JunkChars); i++ {
+		fmt.Fprintf(&b, "/%s 17 def\n", PSName(f.JunkChars[i]))
 	}
 	fmt.Fprintf(&b, "end%send%sreadonly put%snoaccess put%s", nl(), nl(), nl(), nl())
 	if w.pick(2) == 0 {
